@@ -94,6 +94,8 @@ fn register_into(
                     StaticData::ReadAWriteC => add_static!(SReadAWriteC),
                     StaticData::OptReadAThenReadA => add_static!(SOptReadAThenReadA),
                     StaticData::NamingThenProviding => add_static!(SNamingThenProviding),
+                    StaticData::GenReadA => add_static!(SGenReadA),
+                    StaticData::GenReadC => add_static!(SGenReadC),
                 }
             }
             Op::Batch(bs) => {
